@@ -139,7 +139,7 @@ impl<Req, Res: VClone, E: VClone, K: Hash + Eq + VClone, F: Fn(&Req) -> K> Coale
         ensures
             r matches Poll::Ready(Ok(_)) ==> final(self).inner.ready@,   // #ready_only_when_inner_ready [C20]
             r matches Poll::Ready(Err(e)) ==> e is Service,   // #readiness_errors_surface_as_inner [C20]
-            final(self).in_flight == old(self).in_flight && final(self).config == old(self).config,   // #frame
+            final(self).in_flight == old(self).in_flight && final(self).config == old(self).config,   // #shared_state_handles_and_configuration_are_left_untouched [C11]
     //@body CoalesceService::poll_ready@Service
 
     pub fn call(&mut self, request: Req, Tracked(tr): Tracked<&mut Trace<Req, Res, E>>) -> (f: CoalesceFuture<Req, Res, E, K>)
@@ -150,7 +150,7 @@ impl<Req, Res: VClone, E: VClone, K: Hash + Eq + VClone, F: Fn(&Req) -> K> Coale
             f is Leading ==> final(tr).calls == 1 && final(tr).last_req == Some(request)
                 && f->key is Some && call_ensures(old(self).config.key_extractor, (&request,), f->key->0) && f->in_flight == old(self).in_flight,   // #the_leader_makes_exactly_one_inner_call_and_owns_its_key [C11,C20]
             f is Leading ==> final(tr).unguarded == 1 && final(tr).guarded == 1,   // the duty moved from the registration guard into the returned future (both Drops are under contract)
-            final(self).in_flight == old(self).in_flight && final(self).config == old(self).config,   // #frame
+            final(self).in_flight == old(self).in_flight && final(self).config == old(self).config,   // #shared_state_handles_and_configuration_are_left_untouched [C11]
     //@body CoalesceService::call@Service
 }
 
